@@ -102,6 +102,15 @@ Section Mesh.
   (* triangle "areas": the model returns 4*area^2 = |N|^2, the harness takes sqrt *)
   Definition tri_n2 (t : tri) : T := vnorm2 O (vcross O (vsub O (tc t) (tb t)) (vsub O (ta t) (tb t))).
 
+  (* hull certificate: max over triangles t and vertices v of det(b-a, c-a, v-a);
+     <= 0 iff every vertex lies in the closed inner half-space of every triangle plane *)
+  Definition plane_side (t : tri) (v : V3) : T :=
+    vdet O (vsub O (tb t) (ta t)) (vsub O (tc t) (ta t)) (vsub O v (ta t)).
+  Definition plane_excess (V : list V3) (t : tri) : T :=
+    fold_right (fun v acc => omax O (plane_side t v) acc) (o0 O) V.
+  Definition hull_excess (V : list V3) (TT : list tri) : T :=
+    fold_right (fun t acc => omax O (plane_excess V t) acc) (o0 O) TT.
+
   (* ---------- Polyhedron code (general meshes) ---------- *)
   (* Eberly centroid: per triangle  volume += n_x f1_x ; center += n * f2 ; centroid = center/volume/4 *)
   Definition ef1 (i : nat) (t : tri) : T := s1 i t.
